@@ -174,7 +174,12 @@ def main():
         try:
             from contracts import arrays as _arr, models as _mod, specs as _specs
 
-            for name, fn in (("specs", _specs.conformance), ("models", _mod.conformance), ("arrays", _arr.conformance)):
+            fns = [("specs", _specs.conformance), ("models", _mod.conformance), ("arrays", _arr.conformance)]
+            if prop in ("C12", "C13", "C14"):
+                from contracts import realalg as _ra
+
+                fns.append(("realalg: exact-real linear algebra models", _ra.conformance))
+            for name, fn in fns:
                 bad = fn()
                 if bad:
                     crashes.append("model conformance (%s) disagrees with numpy/CPython: %s" % (name, bad[:3]))
